@@ -13,7 +13,7 @@ except ImportError:  # pragma: no cover (python < 3.11)
     import sre_constants as sre_c
 
 from harness.core import Part, ok, viol, discard, HarnessError
-from harness import dp, bv, projgen
+from harness import fuzz, dp, bv, projgen
 from harness.refmodel import ref_search, ref_render
 
 from bumpver import v2patterns, v1patterns
@@ -491,6 +491,66 @@ def cli_fail(l1, l2):
     return None
 
 
+# ------------------------------------------------------------------ D: `grep` finds the line wherever it stands
+
+
+GREP_LITS = ["version: ", "v(", "a.b|", "{x}+? "]
+
+
+def grep_domain(tier):
+    out = []
+    for nlines in range(1, 7):
+        for pos in range(nlines):
+            for second in [None] + [q for q in range(pos + 1, nlines)]:
+                for lit in GREP_LITS:
+                    for final_nl in (True, False):
+                        out.append({"nlines": nlines, "pos": pos, "second": second, "lit": lit, "final_newline": final_nl})
+    return out
+
+
+def check_grep(case):
+    """file of nlines lines, the literal + version stands on line `pos` (and `second`); decoys (literal with one
+    character changed) on the others: grep must exit 0, show every matching line under its line number, and show no
+    line that is neither a match nor directly next to one"""
+    lit = case["lit"]
+    raw = escape_brackets(lit) + "{version}"
+    hits = {case["pos"]} | ({case["second"]} if case["second"] is not None else set())
+    lines = []
+    for i in range(case["nlines"]):
+        if i in hits:
+            lines.append("keep %s1.2.%d tail" % (lit, i))
+        else:
+            lines.append("decoy %s1.2.%d" % (("x" if lit[0] != "x" else "y") + lit[1:], i))
+    text = "\n".join(lines) + ("\n" if case["final_newline"] else "")
+    tmp = tempfile.mkdtemp(prefix="c07g_")
+    try:
+        projgen.write_file(tmp, "f.txt", text)
+        g = bv.run(["grep", "--version-pattern", "MAJOR.MINOR.PATCH", "--", raw, os.path.join(tmp, "f.txt")], cwd=tmp)
+    finally:
+        shutil.rmtree(tmp, ignore_errors=True)
+    sig = {"via": "grep", "first_line": case["pos"] == 0, "lines": min(case["nlines"], 3)}
+    detail = {"pattern": raw, "file": text, "res": g.summary(500)}
+    if g.crashed:
+        return viol("grep-crashes-on-a-matching-line", sig, detail)
+    if g.exit != 0:
+        return viol("grep-does-not-find-literal", sig, detail)
+    shown = {}
+    for ln in g.out.splitlines():
+        head, sep, rest = ln.partition(": ")
+        if sep and head.strip().isdigit():
+            shown.setdefault(int(head.strip()), []).append(rest)
+    for i in sorted(hits):
+        if lines[i] not in shown.get(i + 1, []):
+            return viol("grep-does-not-show-the-matching-line", sig, dict(detail, line=i + 1))
+    for no in shown:
+        i = no - 1
+        if not (0 <= i < len(lines)) or not any(abs(i - h) <= 1 for h in hits):
+            return viol("grep-shows-a-line-that-does-not-contain-the-text", sig, dict(detail, line=no))
+        if any(r != lines[i] for r in shown[no]):
+            return viol("grep-shows-a-line-under-a-wrong-number", sig, dict(detail, line=no))
+    return ok(nt=case["nlines"] >= 3, classes=("match-on-first-line",) if case["pos"] == 0 else ())
+
+
 def selftest():
     if len(SIGMA) != 69:
         raise HarnessError("alphabet size")
@@ -501,6 +561,8 @@ def selftest():
 PARTS = [
     Part("A-exhaustive-len-1-3", check=check_block, domain=lambda tier: Blocks(), exhaustive=lambda tier: True),
     Part("B-random-literals", check=check_b, strategy=lambda: dp.cases(build_b, size=200), n={"quick": 32000, "thorough": 800000}, max_discard=0.35),
+    fuzz.fuzz_part("B-coverage-guided", build_b, check_b, size=200, runs={"quick": 8000, "thorough": 240000}, max_discard=0.5),
+    Part("D-grep-line-positions", check=check_grep, domain=grep_domain, exhaustive=lambda tier: True),
     Part("C-cli-delimiters", check=check_c, strategy=lambda: dp.cases(build_c, size=48), n={"quick": 3000, "thorough": 60000}, max_discard=0.35),
 ]
 
